@@ -203,7 +203,7 @@ def shrink(prop, P, case, check, kind, budget_s=40):
     """delta debugging over files, then over text chunks of each file"""
     if case.get("doc") is not None and P.get("rerender"):
         return shrink_doc(prop, P, case, check, kind, budget_s)
-    if case.get("wf") is not None or case.get("expect_doc") or case.get("extent"):
+    if case.get("wf") is not None or case.get("expect_doc") or case.get("extent") or case.get("doc") is not None:
         return case        # the oracle's ground truth is tied to this exact text
     t0 = time.time()
     best = dict(case)
